@@ -439,6 +439,14 @@ func (x *Exec) evalCall(n *SCall, env *Env) Val {
 		}
 		dom, _, _, _ := e.mapKeysFor(mt)
 		return Val{T: fmt.Sprintf("(select (select %s %s) %s)", e.heapGet(env.st, dom), m.T, k.T), Sort: "Bool"}
+	case "arr": // arr(s): the backing array of a slice as an SMT array
+		v := arg(0)
+		if v.Sort != "Slice" || v.GT == nil {
+			x.fail("arr() needs a typed slice")
+		}
+		et := v.GT.Underlying().(*types.Slice).Elem()
+		key, es := e.memKeyFor(et)
+		return Val{T: fmt.Sprintf("(select %s (sref %s))", e.heapGet(env.st, key), v.T), Sort: fmt.Sprintf("(Array Int %s)", es)}
 	case "slice": // slice(ref,len) constructor
 		return Val{T: fmt.Sprintf("(mk-slice %s %s)", arg(0).T, arg(1).T), Sort: "Slice"}
 	case "fresh": // fresh(p): allocated by this call/activation
@@ -528,6 +536,16 @@ func (x *Exec) typeArg(a SExpr) types.Type {
 	s, ok := a.(*SStr)
 	if !ok {
 		x.fail("type argument must be a string literal")
+	}
+	if s.V == "$T" {
+		fn := x.typeArgFn
+		if fn == nil {
+			fn = x.fn
+		}
+		if fn == nil || len(fn.TypeArgs()) == 0 {
+			x.fail("$T used outside a generic instantiation")
+		}
+		return fn.TypeArgs()[0]
 	}
 	t := x.enc.prog.lookupType(s.V)
 	if t == nil {
